@@ -83,6 +83,12 @@ def build(t2incons, d, rng, names):
             if i != k:
                 inc[b_.block] = b_
         inc.insert_incon(k, pending[k])
+        # a block that comes and goes: added under a name of its own, then deleted; deleting an absent name does nothing
+        extra_name = "zz%3d" % rng.randint(100, 999)
+        if extra_name not in names:
+            inc.add_incon(t2incons.t2blockincon([1.0, 2.0], extra_name))
+            inc.delete_incon(extra_name)
+            inc.delete_incon(extra_name)
         j = rng.randrange(k + 1, len(pending))
         old_ = pending[j]
         inc[old_.block] = t2incons.t2blockincon(list(old_.variable), old_.block, old_.porosity, old_.permeability, old_.nseq, old_.nadd)
